@@ -1,10 +1,10 @@
 CONSTANTS
-  N = 3
+  N = 2
   Hows = {"ok", "retryok", "retry2ok", "close", "hang", "clientgone"}
-  MaxUpd = 0
-  MinUpd = 0
-  Kinds = {}
-  Tos = {}
+  MaxUpd = 2
+  MinUpd = 1
+  Kinds = {"primary", "andhosts"}
+  Tos = {"same", "up", "down", "off", "on"}
 INIT Init
 NEXT Next
 INVARIANT Emit
